@@ -24,6 +24,7 @@ struct Case {
     nval: usize,
     wseed: u32,
     dseed: u32,
+    stop_tol: i32,
 }
 
 fn decode(tape: &[u32]) -> Case {
@@ -48,7 +49,11 @@ fn decode(tape: &[u32]) -> Case {
         let d = if t.bool() { Some(t.usize(50, 950) as u32) } else { None };
         spec.layers.push(LayerSpec::Dense { out: t.usize(1, 6), act: gen_act(&mut t, &o), bias: t.bool(), dropout: d });
     }
-    Case { spec, epochs: t.usize(1, 3) as i32, with_val: !t.chance(1, 5), batch: t.usize(1, 4), ntrain: t.usize(1, 6), nval: t.usize(1, 5), wseed: t.raw(), dseed: t.raw() }
+    let epochs = t.usize(1, 4) as i32;
+    let with_val = !t.chance(1, 5);
+    // early stopping fires in part of the cases (tolerance 1 always stops after epoch 2)
+    let stop_tol = [1000, 1000, 1, 2, 3][t.pick(5)];
+    Case { spec, epochs, with_val, batch: t.usize(1, 4), ntrain: t.usize(1, 6), nval: t.usize(1, 5), wseed: t.raw(), dseed: t.raw(), stop_tol }
 }
 
 fn no_dropout(spec: &NetSpec) -> NetSpec {
@@ -137,7 +142,7 @@ fn check(case: &Case, ev: &mut CaseEv) -> CheckResult {
         let mut a = prepare(spec, &ps).map_err(Fail::new)?;
         let r = catch(std::panic::AssertUnwindSafe(|| {
             if case.with_val {
-                a.learn(&txr, &tyr, Some((&vxr, &vyr, 1000)), case.batch, e, None)
+                a.learn(&txr, &tyr, Some((&vxr, &vyr, case.stop_tol)), case.batch, e, None)
             } else {
                 a.learn(&txr, &tyr, None, case.batch, e, None)
             }
@@ -168,9 +173,19 @@ fn check(case: &Case, ev: &mut CaseEv) -> CheckResult {
         let (bl, ba) = catch(std::panic::AssertUnwindSafe(|| b.validate(&vxr, &vyr, 1e-6))).map_err(Fail::new)?;
         let (al, aa) = catch(std::panic::AssertUnwindSafe(|| a.validate(&vxr, &vyr, 1e-6))).map_err(Fail::new)?;
         ensure!(al.to_bits() == bl.to_bits() && aa.to_bits() == ba.to_bits(), "validate after training: ({:e}, {:e}) with dropout layers vs ({:e}, {:e}) without; spec {:?}", al, aa, bl, ba, spec);
+        // a stand-alone validate() must not switch dropout back on
+        for x in vx.iter().take(2) {
+            let (pa, pb) = (catch(|| a.predict(x)).map_err(Fail::new)?, catch(|| b.predict(x)).map_err(Fail::new)?);
+            if let Some(i) = tens::first_bit_diff(&tens::flat(&pa), &tens::flat(&pb)) {
+                fail!("after learn() and a stand-alone validate() on {} samples, predict element {} is {:e} but the dropout-free network gives {:e}; spec {:?}", case.nval, i, tens::flat(&pa)[i], tens::flat(&pb)[i], spec);
+            }
+        }
         // (2) the validation metrics reported by learn itself for its last epoch
         if case.with_val {
-            ensure!(vl.len() == e as usize, "harness: {} validation entries after {} epochs", vl.len(), e);
+            ensure!(vl.len() <= e as usize && !vl.is_empty(), "harness: {} validation entries after {} epochs", vl.len(), e);
+            if vl.len() < e as usize {
+                ev.class("early stop fired");
+            }
             let (lv, lacc) = (*vl.last().unwrap(), *va.last().unwrap());
             if lv.to_bits() != bl.to_bits() || lacc.to_bits() != ba.to_bits() {
                 return Err(Fail::known(
@@ -204,7 +219,7 @@ impl Prop for C09 {
         Some(2)
     }
     fn rule(&self) -> String {
-        "tape-decoded layer sequence (1-4 generated layers of any kind incl. feedback blocks, ending in a dense layer, plus 0-2 further dense layers) with dropout (rate 0.05..0.95) on any subset incl. layers inside blocks (at least one), 1-3 epochs, with (4/5) or without validation data, 1-6 training and 1-5 validation samples, batch 1-4, SGD lr 1/32, MSE. Oracle: the dropout-free twin built from the same specification: (1) after learn() returns, copy the weights into the twin: predict and validate agree bitwise; (2) for e = 1..E a fresh network trained exactly e epochs reports as its last validation loss / accuracy what the twin's validate gives on those weights (bitwise); (3) a never-trained network predicts like the twin. Non-trivial: some dropout mask (recomputed with the public generator, seed 12345) zeroes >= 1 element, and validation data present. Distinct = (architecture with dropout pattern, epochs, validation y/n).".into()
+        "tape-decoded layer sequence (1-4 generated layers of any kind incl. feedback blocks, ending in a dense layer, plus 0-2 further dense layers) with dropout (rate 0.05..0.95) on any subset incl. layers inside blocks (at least one), 1-4 epochs, with (4/5) or without validation data, early-stopping tolerance in {1000, 1, 2, 3} (so early stops occur), 1-6 training and 1-5 validation samples, batch 1-4, SGD lr 1/32, MSE. Oracle: the dropout-free twin built from the same specification: (1) after learn() returns, copy the weights into the twin: predict and validate agree bitwise; (2) for e = 1..E a fresh network trained exactly e epochs reports as its last validation loss / accuracy what the twin's validate gives on those weights (bitwise); (3) a never-trained network predicts like the twin. Non-trivial: some dropout mask (recomputed with the public generator, seed 12345) zeroes >= 1 element, and validation data present. Distinct = (architecture with dropout pattern, epochs, validation y/n).".into()
     }
     fn run_case(&self, tape: &[u32], ev: &mut CaseEv) -> CheckResult {
         check(&decode(tape), ev)
